@@ -79,4 +79,4 @@ def install(reg: Registry):
                              ('self-in-G', is_node(c.old, c.G, c.self)), ('attacker-in-G', is_att(c.old, c.G, c.attacker))],
                          ensures=(lambda add: lambda c: comp_ensures(add)(
                              CCtx(c.old, c.h, {'self': c.sv('attacker'), 'node': c.sv('self')}, c.ghosts, c.result)))(add),
-                         modifies=LIST_ARRAYS, props=('C11',)))
+                         modifies=LIST_ARRAYS, props=('C11', 'C09')))
